@@ -50,6 +50,10 @@ def spec(tier):
         jobs.append(Job("hooks", "h_iobad", ["--trials=%d" % nb, "--first=%d" % (i * nb)], ncpu=[None, 4, 2, None][i % 4], timeout=T, tag="h_iobad:hooks:%d" % i))
     jobs.append(Job("asan", "h_iobad", ["--trials=%d" % nb, "--first=90000"], timeout=600 if quick else 1800, env={"VF_LSAN": "1"}, tag="h_iobad:asan"))
     jobs.append(Job("hooks", "h_iobad", ["--trials=%d" % nb, "--first=91000", "--sigstorm=2000"], timeout=T, tag="h_iobad:sigstorm"))
+    # every scenario class also as the very first use of dispatch I/O in a process (lazily created global queues, once predicates)
+    for i in range(24 if quick else 240):
+        jobs.append(Job("hooks", "h_iobad", ["--trials=1", "--first=%d" % (93000 + i)], timeout=120, tag="h_iobad:cold:%d" % i))
+        jobs.append(hio("default", 1, first=940000 + i, timeout=120, tag="h_io:cold:%d" % i))
     # directed (F35): the first dispatch I/O object of a process is a channel derived from one whose path does not exist, closed with STOP
     for i in range(3 if quick else 12):
         jobs.append(Job("hooks", "h_iobad", ["--trials=1", "--first=%d" % (92000 + i), "--force-class=3", "--force-derived=1", "--force-close=1"], timeout=120, tag="h_iobad:cold-derived-stop:%d" % i))
